@@ -1,24 +1,28 @@
 chk('C03', 'exploration',
-    'bounded-exhaustive words x deviation lattice of link configurations, every case executed on the REAL chained blocks '
-    'bits -> DAC(Vout=Vpi, nrz|gaussian) -> MZM(CW carrier, bias=-Vpi) -> [DM | FIBER(alpha=0.2, gamma=0), |beta2*L| = 0.9 % of T_slot^2, both signs] '
-    '-> PD(include_noise=ase-only on a noise-free field, run under a scripted RNG that reports any random draw) -> SAMPLER(sps//2) -> threshold '
-    'midway between the two received level means (numpy comparison AND the library > operator), oracle = the transmitted word, exact equality. '
-    'Lattice over 12 axes (baseline first): sps {16,4,5,7,8,33,64}, R {1e9,10e9}, pulse {nrz,gaussian}, Vpi {5,2}, loss {0,3 dB}, ER {26,10,40 dB}, '
-    'launch {0,-20,+10 dBm}, r {1,0.5}, R_load {50,1e3}, PD BW {0.75R,0.7R,2R}, layout {1-pol, 2-pol split carrier, 2-pol with both rows populated '
-    '(-45 deg linear state)}, channel {none, DM+, DM-, FIBER+, FIBER-}; points with PD BW >= fs/2 dropped: 25 points at k<=1, 275 at k<=2, 1781 at k<=3. '
-    'quick: ALL 254 words of length 8 containing both symbols x the 25 k<=1 points (6 350 links) + 8 fixed words (0^8 1^8, (01)^8, single 1 / single 0 '
-    'in 16 slots, PRBS7[:16], PRBS7[:64], two VERIF_SEED-selected 16-bit words) x the 275 k<=2 points; thorough: ALL 1022 words of length 10 x k<=1, ALL '
-    '254 words of length 8 x every k=2 point (63 500 links), the fixed words x the 1781 k<=3 points. Packaged routines on the same links: ook.DSP on '
-    '32/64/127 slots of PRBS7 and seeded-random data, ppm.DSP soft and hard (estimated threshold) on PPM_ENCODER output (encoder compared with a '
-    'reference) for M in {2,4,8,16} x 3 data words (all-symbols ramp, PRBS7, seeded), over the k<=1 (thorough k<=2) points + 6 corner points x a KMeans '
-    'seed alphabet {0,1} ({0,1,2}); on every decoded output ook/ppm BER_analizer(counter) must be exactly 0 and exactly k/n for EVERY way of flipping '
-    'k in {1,2,3} bits at positions {0,1,n//2,n-2,n-1}; the same on plain sequences of length 2..127 (thorough: + all 6-bit words)',
-    'continuum quantifiers (sps 4..64, rates, Vpi/loss/ER, powers, responsivity/load/bandwidth) are covered at the lattice points and only up to 2 (quick) '
-    '/ 3 (thorough) simultaneous deviations from the baseline; word lengths 8/10 exhaustively, longer words only the fixed set and the DSP words; MZM BW '
-    'and DAC BW stages, rz pulses, pol=y, beta3 and gamma != 0 are not exercised; the dispersion magnitude is one value (0.9 %) per sign; ook.DSP only on '
-    'pseudo-random data as the statement says; the level means used for the midway threshold are taken over the transmitted ones / zeros; the '
-    '2-pol-rot layout applies a harness-side unitary Jones rotation after the MZM because the MZM block always empties one row; a one-sample timing '
-    'error of the Gaussian pulse does not change any decision in the explored space and is therefore not detectable through this property (C05 owns pulse position)',
-    'bounded-exhaustive enumeration (all short words x deviation lattice, iterated bound k) on the real block chain with the transmitted word as oracle; '
-    'owned nondeterminism: scripted numpy RNG around the link, enumerated np.random.seed alphabet for KMeans, single-threaded workers',
+    'bounded-exhaustive words x deviation lattice of link configurations on the REAL chain bits -> DAC -> MZM(CW carrier) -> [DM | '
+    'FIBER(gamma=0), |beta2*L| = 0.9 % (one DM member 0.99 %) of T_slot^2, both signs] -> PD(ase-only, noise-free field, scripted RNG '
+    'reports any draw) -> SAMPLER(sps//2) -> threshold midway between the received level means (numpy and the library > operator, 6 '
+    'threshold forms); oracle = the transmitted word, exact. 17 axes: sps {16,4,5,7,8,33,64}, rate, pulse, Vpi, loss, ER, launch -50..+20 '
+    'dBm, r, R_load, PD BW, 6 layouts (incl. pol=y, all-zero noise attached), 11 channel, 5 tx, 3 PD call forms, and 3 notation axes (11 '
+    'bit containers, 7 gv call forms incl. non-integer fs/R, 4 scalar number forms); PD BW >= fs/2 dropped: 61 points at k<=1, 1 682 at '
+    'k<=2, 27 864 at k<=3, of which quick runs 3 188 (option / notation deviations k<=2) and thorough 9 310 (notation k<=2). quick: ALL '
+    '254 words of length 8 with both symbols, all words of length 2..5 longer than the 16-sample padding and 4 seeded / single-symbol '
+    'words of 128,129,4097 slots x the 61 points; 8 fixed words (16 / 64 slots, 2 VERIF_SEED-selected) x 3 188 points (44 868 link runs). '
+    'thorough: ALL 1022 words of length 10 x 61, ALL 254 x the 1 621 k=2 points, lengths 2..7 and 127..8193, fixed words x 9 310. '
+    'Packaged routines: ook.DSP (32/64/127 slots PRBS7 / seeded, records up to 8193 / 10001 slots) on k<=1 (thorough k<=2) + 9 corners + '
+    'all 81 pairs (thorough + 197 triples) of eye-shaping deviations x KMeans seeds {0,1} / {0,1,2}: 1 564 / 11 172 runs; ppm.DSP soft / '
+    'hard (estimated and explicit threshold), M in {2,4,8,16} x ramp, PRBS7, seeded, ragged and 6 structured words, 1, 3, 8192/M+1 '
+    'symbols: 4 513 / 17 718 runs. On every decoded output and on plain sequences (all pairs of 9 containers, Tx longer by 0..3 bits) '
+    'both BER_analizer(counter) must give exactly 0, exactly k/n for every flip set of k in {1,2,3} over 5 positions and over a ladder of '
+    'counts 4..n at machine-word boundaries on records up to 70 001 (thorough 2^24+2) bits. Shared call-history part: 20 calls x 3 grids',
+    'continuum quantifiers (sps 4..64, rates, Vpi/loss/ER, powers, responsivity/load/bandwidth) are covered at the lattice points and up '
+    'to 3 simultaneous deviations (2 when one is an option / notation deviation; thorough: notation only); words exhaustively for lengths '
+    '2..5, 8 (quick) / 2..8, 10 (thorough) at k<=1 (8 also at k=2 in thorough), longer words only the fixed / seeded / single-symbol sets '
+    'and the DSP words; rz pulses, DAC(c,m,T), beta3, gamma != 0, Rx longer than Tx are outside; ppm.DSP hard decision with estimated '
+    'threshold only on records of >= 32 slots; number / container forms rotate over the cases in the quick tier; the level means of the '
+    'midway threshold are taken over the transmitted ones / zeros; the 2-pol-rot layout applies a harness-side unitary Jones rotation; a '
+    'one-sample timing error of the Gaussian pulse is not detectable through this property (C05 owns pulse position)',
+    'bounded-exhaustive enumeration (all short words x deviation lattice, iterated bound k) on the real block chain with the transmitted '
+    'word as oracle; owned nondeterminism: scripted numpy RNG around the link, enumerated np.random.seed alphabet for KMeans, '
+    'single-threaded workers',
     'DESIGN.md 5/C03')
